@@ -505,6 +505,13 @@ func genC14(t *rapid.T) *c14Case {
 				if z := rapid.SampledFrom([]string{"", "z1", "z2", "z3"}).Draw(t, fmt.Sprintf("%s-z%d", l, k)); z != "" {
 					s.Labels = map[string]string{"zone": z}
 				}
+				if rapid.IntRange(0, 5).Draw(t, fmt.Sprintf("%s-msgOn%d", l, k)) == 0 {
+					// label values that need the escapes of the text format, or look like syntax
+					if s.Labels == nil {
+						s.Labels = map[string]string{}
+					}
+					s.Labels["msg"] = rapid.SampledFrom([]string{"a\"b", "c\\d", "x}y", "k=v,w", "# not a comment", "two  spaces", "line\nbreak", "{", "ünï 世界", ""}).Draw(t, fmt.Sprintf("%s-msg%d", l, k))
+				}
 				if rapid.Bool().Draw(t, fmt.Sprintf("%s-id%d", l, k)) {
 					if s.Labels == nil {
 						s.Labels = map[string]string{}
